@@ -273,6 +273,12 @@ func (k Keeper) UpdateTokenPairERC20(ctx sdk.Context, erc20Addr, newERC20Addr co
 		return types.TokenPair{}, sdkerrors.Wrapf(types.ErrTokenPairAlreadyExists, "token ERC20 contract already registered: %s", newERC20Addr.String())
 	}
 
+	// the tokens the module escrows stay in the old contract: vouchers in circulation (the first
+	// denomination of an externally owned contract's pair) would lose their backing
+	if pair.IsNativeERC20() && k.bankKeeper.HasSupply(ctx, pair.Denoms[0]) {
+		return types.TokenPair{}, sdkerrors.Wrapf(types.ErrInternalTokenPair, "coins of %s are in circulation, backed by tokens escrowed in %s", pair.Denoms[0], pair.ERC20Address)
+	}
+
 	// Get current stored metadata
 	metadata, found := k.bankKeeper.GetDenomMetaData(ctx, pair.Denoms[0])
 	if !found {
